@@ -59,7 +59,7 @@ def worker(args):
                         bus = rr.Bus(exe, cfg)
                     res = rr.run_script(bus, parse_events(s["events"]), rr.parse_groups(line), [bytes.fromhex(c) for c in s["canaries"]])
                 except Exception:
-                    res = {"problems": [("violation", "executor exception (bus unusable?): " + traceback.format_exc()[-600:])], "observed": [], "stats": {}}
+                    res = {"problems": [("violation", "executor exception (bus unusable?): " + " / ".join(traceback.format_exc().strip().split("\n")[-3:])[-400:])], "observed": [], "stats": {}}
                 res["attempts"] = attempt + 1
                 if res["problems"]:
                     if bus is not None:
@@ -67,7 +67,11 @@ def worker(args):
                             alive, rc, bad, err = bus.stop()
                         except Exception:
                             alive, rc, bad, err = False, None, [], traceback.format_exc()[-800:]
-                        daemons.append({"alive": alive, "rc": rc, "san": bad[:20], "tail": err[-1500:] if (bad or not alive or rc != 0) else "", "after": idx})
+                        daemons.append({"alive": alive, "rc": rc, "san": bad[:20], "tail": err[-1500:] if (bad or not alive or rc != 0) else "", "after": idx,
+                                        "reported": True})
+                        if bad or not alive or rc not in (0, None):
+                            res["problems"].insert(0, ("violation", "dbus-daemon %s (exit status %s) during this script: %s" % (
+                                "was still running" if alive else "DIED", rc, " | ".join(bad[:4]) or err[-300:])))
                     bus = None
                     # only pure timing mismatches are worth another attempt
                     if all(k == "mismatch" for k, _ in res["problems"]) and attempt + 1 < attempts:
@@ -155,7 +159,7 @@ def run(ctx):
                 replay["names"] = "correspondence harness/py/robust_run.py (dbus-daemon) vs Robust.Env/Robust.Bus (extracted)"
                 rep.violation("[%s] daemon and model disagree: %s" % (fam, text), replay, found_input=False)
     for d in daemons:
-        if d["san"] or d["rc"] not in (0, None) or not d["alive"]:
+        if (d["san"] or d["rc"] not in (0, None) or not d["alive"]) and not d.get("reported"):
             # the script after which it happened has its own entry if it was noticed; report the log in any case
             s = scripts[d["after"]] if d.get("after") is not None else None
             rep.violation("dbus-daemon: exit status %s, alive before stop: %s, sanitizer/assert lines: %s" % (d["rc"], d["alive"], d["san"][:5]),
